@@ -48,7 +48,6 @@ def errStr : Err → String
 def outputStr (o : Output) : String :=
   match o.final with
   | .outOfFuel => "model-out-of-fuel"
-  | .oom => "model-oom"
   | f =>
     let fs := match f with
       | .finished => "end"
@@ -57,13 +56,10 @@ def outputStr (o : Output) : String :=
       | _ => "?"
     s!"{fs} {o.cidsEnd} {o.items.length} {if o.items.isEmpty then "-" else " ".intercalate (o.items.map itemStr)}"
 
-/-- 2^24 `VecMap` slots: far above every client id the generator produces -/
-def memCids : Nat := 16777216
-
 /-- The header's JSON content is outside the model: the request says which version the (valid)
 header text carries. -/
 def envOf (ver : String) : Option Env :=
-  (parseInt ver).map fun v => { json := fun _ => .ok v, memCids := memCids }
+  (parseInt ver).map fun v => { json := fun _ => .ok v }
 
 def parseNatList (s : String) : Option (List Nat) :=
   if s.isEmpty then some [] else (s.splitOn ",").mapM parseNat
